@@ -203,6 +203,29 @@ def _cli(case, pt):
                             out.append({'key': 'C06:filtered-list', 'what': '%s %s with files %s lists %s, expected %s' % (mode, extra, pattern, got, want_ids), 'case': case})
                     except Exception as e:
                         out.append({'key': 'C06:filtered-list-not-json', 'what': '%s %s with files %s (H = not selected): output does not parse: %s' % (mode, extra, pattern, e), 'case': case})
+        # --json twice into the same output directory, the second document shorter (plug-ins off: hex dump; on: decoded)
+        re_in, re_out = os.path.join(d, 're_in'), os.path.join(d, 're_out')
+        os.mkdir(re_in)
+        os.mkdir(re_out)
+        spec = {'eid': 0x50000200, 'plid': 0x50000200, 'sections': [
+            {'t': 'PS', 'ascii': codes[0].ljust(32)},
+            {'t': 'UD', 'comp': 0xE500, 'sub': 3, 'payload': json.dumps({'Callout List': ['x' * 8] * 40}).encode().hex()}]}
+        with open(os.path.join(re_in, 'again'), 'wb') as f:
+            f.write(pelgen.encode_pel(pelgen.pel_from_spec(spec)))
+        for order in (['-P', None], [None, '-P']):
+            for f in os.listdir(re_out):
+                os.unlink(os.path.join(re_out, f))
+            for opt in order:
+                clidrv.run_main(['-p', re_in, '-j', '-o', re_out, '-E'] + ([opt] if opt else []))
+                rf = clidrv.run_main(['-f', os.path.join(re_in, 'again'), '-E'] + ([opt] if opt else []))
+                for fn in os.listdir(re_out):
+                    with open(os.path.join(re_out, fn)) as f:
+                        text = f.read()
+                    try:
+                        if json.loads(text) != json.loads(rf.stdout):
+                            out.append({'key': 'C06:json-rewrite', 'what': '%s differs from the -f document after re-running --json (%s)' % (fn, order), 'case': case})
+                    except Exception as e:
+                        out.append({'key': 'C06:json-rewrite-not-json', 'what': '%s written by a repeated --json run (%s) does not parse: %s' % (fn, order, e), 'case': case})
         r = clidrv.run_main(['-f', os.path.join(d, 'in', 'f000'), '-E'])
         try:
             x = json.loads(r.stdout)
@@ -218,9 +241,12 @@ def _nontrivial(s):
 
 
 def _do(res, case, s, every=1999):
-    core.arm()
-    vs = eval_case(case)
-    core.disarm()
+    try:
+        core.arm()
+        vs = eval_case(case)
+        core.disarm()
+    except core.CaseTimeout:
+        vs = [{'key': 'C06:hang', 'what': 'printing did not terminate within %.0fs for string %r' % (core.CASE_TIMEOUT_S, s[:40]), 'case': case}]
     res.case(nontrivial_key=json.dumps(case) if _nontrivial(s) else None, outcome=vs[0]['key'] if vs else 'ok:' + case['k'],
              sample=case if res.evals % every == 1 else None)
     res.add(vs)
@@ -241,7 +267,7 @@ def run_chunk(chunk):
     elif k == 'pp_short':
         _do(res, {'k': 'pp', 's': ''}, '')
         for s in ['"Section Version": 1,', 'a' * 40 + '":' + 'b' * 40, '    "key": "value"', '\\":', '\\\\":', 'é":é', '": {',
-                  '":' * 20, 'x' * 100, '"\\u0041":']:
+                  '":' * 20, 'x' * 100, '"\\u0041":', '\\' * 40, '"' * 40, '\\"' * 30, '\\' * 39 + '"', 'a\\' * 25 + ':']:
             _do(res, {'k': 'pp', 's': s}, s)
     elif k in ('e2e_text', 'e2e_json'):
         via = 'text' if k == 'e2e_text' else 'json'
